@@ -220,6 +220,20 @@ Definition relevant_tx (U : universe) (fuel : nat) (t : Z) (blk : option (Z * Z 
        add_credit t d (match blk with None => None | Some (h, b, _) => Some (h, b) end) (fst c) (snd c)))
   end.
 
+(** the same notification applied again through the store API without the
+    early return: InsertTx (a duplicate is not an error), then every credit *)
+Definition redeliver_tx (U : universe) (fuel : nat) (t : Z) (blk : option (Z * Z * Z)) : prog unit :=
+  match U !! t with
+  | None => Fail eData
+  | Some d =>
+    (match blk with
+     | None => insert_mempool t d
+     | Some (h, b, bt) => insert_mined U fuel t d h b bt
+     end) ;;;
+    for_each (tx_creds d) (fun c =>
+      add_credit t d (match blk with None => None | Some (h, b, _) => Some (h, b) end) (fst c) (snd c))
+  end.
+
 (** tx.go rollback, the part for one transaction of a detached block.
     [acc] = (running mined balance, outputs of removed coinbase transactions). *)
 Definition rollback_tx (U : universe) (h b : Z) (acc : Z * list key) (t : Z) : prog (Z * list key) :=
@@ -302,13 +316,17 @@ Definition locked_by (now : Z) (op : key) : prog (option Z) :=
                  | _ => None
                  end).
 
+(** the stored expiry is truncated to whole seconds ([expiry.Unix()]); times
+    are milliseconds *)
+Definition trunc_sec (ms : Z) : Z := (ms / 1000) * 1000.
+
 Definition lock_output (now id : Z) (op : key) (dur : Z) : prog Z :=
   known <- is_known_output op ;;
   (if negb known then Fail eUnknownOutput else
    l <- locked_by now op ;;
    (if match l with Some id' => negb (id' =? id) | None => false end then Fail eAlreadyLocked else
     create_bucket_if_not_exists bLocked ;;;
-    put bLocked op [id; now + dur] ;;;
+    put bLocked op [id; trunc_sec (now + dur)] ;;;
     Ret (now + dur))).
 
 Definition release_output (now id : Z) (op : key) : prog unit :=
@@ -331,6 +349,7 @@ Definition sweep_expired (now : Z) : prog unit :=
 Inductive tx_event :=
 | EvSeen (t : Z)
 | EvConfirm (t h b bt : Z)
+| EvRedeliver (t h b bt : Z)    (* h < 0: as unconfirmed *)
 | EvDisconnect (h : Z)
 | EvAbandon (t : Z)
 | EvLease (id pt pi dur : Z)
@@ -345,6 +364,8 @@ Definition tx_prog (U : universe) (now : Z) (e : tx_event) : prog unit :=
   match e with
   | EvSeen t => relevant_tx U (fuel_of U) t None
   | EvConfirm t h b bt => relevant_tx U (fuel_of U) t (Some (h, b, bt))
+  | EvRedeliver t h b bt =>
+    redeliver_tx U (fuel_of U) t (if h <? 0 then None else Some (h, b, bt))
   | EvDisconnect h => rollback U (fuel_of U) h
   | EvAbandon t => remove_conflict U (fuel_of U) t
   | EvLease id pt pi dur => lock_output now id [pt; pi] dur ;;; Ret tt
